@@ -771,10 +771,20 @@ def pull(m, itv, sp, item_ty=None):
 
 
 def iter_size_hint(m, ref, args, t, sp):
-    """(lower, Option<upper>): the lower bound of an abstract iterator says nothing about
-    emptiness (0 is always a legal lower bound)"""
+    """(lower, Option<upper>) of an abstract iterator: any lower bound >= 0 and either no upper bound
+    or any upper bound >= lower — the hint says nothing the caller may rely on for the result"""
+    it = load(m, args[0]) if isinstance(args[0], VRef) else args[0]
+    if isinstance(it, VModel) and it.kind == "slice_iter":
+        r = it.st["ref"]
+        n = r.hi - r.lo - it.st["pos"]
+        return VTuple([n, some(n)])
     lo = m.ienv.new_sym("size_hint_lo", 0, 2**40)
-    return VTuple([lo, VOpaque("Option<usize>", m.new_name("size_hint_hi"))])
+    c = m.choose(2, ("size-hint-upper", sp))
+    if c == 0:
+        return VTuple([lo, none()])
+    hi = m.ienv.new_sym("size_hint_hi", 0, 2**40)
+    m.ienv.assume("Ge", hi, lo, True)
+    return VTuple([lo, some(hi)])
 
 
 def iter_sum(m, ref, args, t, sp):
@@ -1804,3 +1814,394 @@ def slice_partition_point(m, ref, args, t, sp):
 
 for _p in ("core::slice::<impl [T]>::",):
     BY_NAME[_p + "partition_point"] = slice_partition_point
+
+
+# ---- more of core that idiomatic refactorings use -------------------------------------------
+def iter_find(m, ref, args, t, sp):
+    it = iter_of(m, load(m, args[0]) if isinstance(args[0], VRef) else args[0], sp)
+    for x in pull(m, it, sp, None):
+        c = Cell(x)
+        r = m.call_closure(args[1], [VRef(c, (), False)], sp)
+        if not is_cond(r):
+            raise Unsupported("find predicate")
+        if m.truth(r, sp, "find"):
+            return some(x)
+    return none()
+
+
+def iter_find_map(m, ref, args, t, sp):
+    it = iter_of(m, load(m, args[0]) if isinstance(args[0], VRef) else args[0], sp)
+    for x in pull(m, it, sp, closure_arg_ty(m, args[1], 0)):
+        r = m.call_closure(args[1], [x], sp)
+        if isinstance(r, VStruct) and r.path == OPTION:
+            if r.variant == 1:
+                return r
+        else:
+            raise Unsupported("find_map closure result")
+    return none()
+
+
+def iter_by_ref(m, ref, args, t, sp):
+    return args[0]
+
+
+def iter_nth(m, ref, args, t, sp):
+    r = args[0]
+    it = load(m, r)
+    n = simp(args[1])
+    if not isinstance(n, int):
+        raise Unsupported("nth(symbolic)")
+    x = None
+    for _ in range(n + 1):
+        o = iter_next(m, None, [r], None, sp)
+        if o.variant == 0:
+            return none()
+        x = o.fields[0]
+    return some(x)
+
+
+def iter_step_by(m, ref, args, t, sp):
+    k = simp(args[1])
+    if not isinstance(k, int) or k <= 0:
+        raise Unsupported("step_by(symbolic)")
+    return VModel("step_by", inner=iter_of(m, args[0], sp), k=k, first=True)
+
+
+def iter_min_max_by(want_max):
+    def h(m, ref, args, t, sp):
+        it = iter_of(m, args[0], sp)
+        best = None
+        for x in pull(m, it, sp, None):
+            if best is None:
+                best = x
+                continue
+            ca, cb = Cell(best), Cell(x)
+            r = m.call_closure(args[1], [VRef(ca, (), False), VRef(cb, (), False)], sp)
+            k = _ord_k(m, r)
+            if k is None:
+                raise Unsupported("min_by/max_by comparator")
+            # max_by returns the last maximal element, min_by the first minimal one
+            if (want_max and k <= 0) or (not want_max and k > 0):
+                best = x
+        return none() if best is None else some(best)
+    return h
+
+
+for _n, _h in (("find", iter_find), ("find_map", iter_find_map), ("by_ref", iter_by_ref), ("nth", iter_nth), ("step_by", iter_step_by),
+               ("max_by", iter_min_max_by(True)), ("min_by", iter_min_max_by(False))):
+    BY_TRAIT[("core::iter::traits::iterator::Iterator", _n)] = _h
+
+_model_next_2 = model_next
+
+
+def model_next(m, it, sp, item_ty=None):
+    if it.kind == "step_by":
+        st = it.st
+        if st["first"]:
+            st["first"] = False
+            return model_next(m, st["inner"], sp, item_ty)
+        x = None
+        for _ in range(st["k"]):
+            x = model_next(m, st["inner"], sp, item_ty)
+            if x is None:
+                return None
+        return x
+    return _model_next_2(m, it, sp, item_ty)
+
+
+def slice_split_at(mutable):
+    def h(m, ref, args, t, sp):
+        v = args[0]
+        k = simp(args[1])
+        if not isinstance(k, int):
+            k = m.concrete_index(args[1], sp)
+        els, _ = slice_elems(m, v)
+        lo = v.lo if v.lo is not None else 0
+        hi = v.hi if v.hi is not None else len(els)
+        if not (0 <= k <= hi - lo):
+            raise PathEnd("panic", {"kind": "slice-oob", "span": sp, "fn": m.stack[-1] if m.stack else None, "stack": list(m.stack)})
+        return VTuple([VRef(v.cell, v.path, mutable, lo, lo + k), VRef(v.cell, v.path, mutable, lo + k, hi)])
+    return h
+
+
+def slice_split_last(m, ref, args, t, sp):
+    v = args[0]
+    if isinstance(v, VRef):
+        els, _ = slice_elems(m, v)
+        lo = v.lo if v.lo is not None else 0
+        hi = v.hi if v.hi is not None else len(els)
+        if hi - lo == 0:
+            return none()
+        return some(VTuple([VRef(v.cell, v.path + (hi - 1,), v.mut), VRef(v.cell, v.path, v.mut, lo, hi - 1)]))
+    raise Unsupported("split_last of unmodelled slice")
+
+
+def slice_is_empty(m, ref, args, t, sp):
+    n = slice_len(m, ref, args, t, sp)
+    n = simp(n)
+    if isinstance(n, int):
+        return n == 0
+    return ("icmp", "Eq", n, 0)
+
+
+def slice_to_owned_array(m, ref, args, t, sp):
+    els, _ = slice_elems(m, args[0])
+    return VArray([deep(m.read_loc(c, p)) for c, p in els])
+
+
+for _p in ("core::slice::<impl [T]>::",):
+    BY_NAME[_p + "split_at"] = slice_split_at(False)
+    BY_NAME[_p + "split_at_mut"] = slice_split_at(True)
+    BY_NAME[_p + "split_last"] = slice_split_last
+    BY_NAME[_p + "split_last_mut"] = slice_split_last
+    BY_NAME[_p + "split_first_mut"] = slice_split_first
+    BY_NAME[_p + "is_empty"] = slice_is_empty
+    BY_NAME[_p + "first_mut"] = slice_first_last("first")
+    BY_NAME[_p + "last_mut"] = slice_first_last("last")
+
+
+def clone_from(m, ref, args, t, sp):
+    dst, src = args
+    v = load(m, src)
+    if isinstance(v, VStruct) and v.path in m.db.adts:
+        p = m.db.find_impl_method("core::clone::Clone", v.path, "clone_from")
+        if p:
+            return m.call_local(m.db.fns[p], [dst, src], sp)
+        p = m.db.find_impl_method("core::clone::Clone", v.path, "clone")
+        if p:
+            m.write_loc(dst.cell, dst.path, m.call_local(m.db.fns[p], [src], sp), sp)
+            return UNIT
+    m.write_loc(dst.cell, dst.path, deep(v), sp)
+    return UNIT
+
+
+BY_TRAIT[("core::clone::Clone", "clone_from")] = clone_from
+
+
+def bool_then(lazy):
+    def h(m, ref, args, t, sp):
+        c = args[0]
+        tv = m.truth(c, sp, "then") if is_cond(c) and not isinstance(c, bool) else c
+        if not isinstance(tv, bool):
+            raise Unsupported("bool::then on an unmodelled condition")
+        if not tv:
+            return none()
+        return some(m.call_closure(args[1], [], sp) if lazy else args[1])
+    return h
+
+
+BY_NAME["core::bool::<impl bool>::then"] = bool_then(True)
+BY_NAME["core::bool::<impl bool>::then_some"] = bool_then(False)
+
+
+def int_checked(op):
+    def h(m, ref, args, t, sp):
+        a, b = simp(args[0]), simp(args[1])
+        ty = (ref.get("fn") or "")
+        import re as _re
+        mm = _re.search(r"<impl (\w+)>", ty)
+        tn = mm.group(1) if mm else "u64"
+        lo, hi = INT_RANGE.get(tn, INT_RANGE["u64"])
+        r = simp(Lin.lift(a) + Lin.lift(b)) if op == "add" else simp(Lin.lift(a) - Lin.lift(b))
+        c = (not (lo <= r <= hi)) if isinstance(r, int) else ("ovf", Lin.lift(r), lo, hi)
+        if m.truth(c, sp, "checked_" + op):
+            return none()
+        return some(r)
+    return h
+
+
+def int_saturating_sub(m, ref, args, t, sp):
+    a, b = simp(args[0]), simp(args[1])
+    r = simp(Lin.lift(a) - Lin.lift(b))
+    c = (r < 0) if isinstance(r, int) else ("icmp", "Lt", r, 0)
+    if m.truth(c, sp, "saturating_sub"):
+        return 0
+    return r
+
+
+for _t in ("u64", "usize", "u32", "i64", "isize", "u128", "u8", "u16", "i32"):
+    BY_NAME["core::num::<impl %s>::checked_sub" % _t] = int_checked("sub")
+    BY_NAME["core::num::<impl %s>::checked_add" % _t] = int_checked("add")
+for _t in ("u64", "usize", "u32", "u128", "u8", "u16"):
+    BY_NAME["core::num::<impl %s>::saturating_sub" % _t] = int_saturating_sub
+
+
+def option_copied(m, ref, args, t, sp):
+    v = args[0]
+    if isinstance(v, VStruct) and v.path == OPTION:
+        return some(deep(load(m, v.fields[0]))) if v.variant == 1 else v
+    raise Unsupported("copied of unmodelled option")
+
+
+def option_map_or_else(m, ref, args, t, sp):
+    v = args[0]
+    if isinstance(v, VStruct) and v.path == OPTION:
+        return m.call_closure(args[2], [v.fields[0]], sp) if v.variant == 1 else m.call_closure(args[1], [], sp)
+    if isinstance(v, VStruct) and v.path == RESULT:
+        return m.call_closure(args[2], [v.fields[0]], sp) if v.variant == 0 else m.call_closure(args[1], [v.fields[0]], sp)
+    raise Unsupported("map_or_else of unmodelled value")
+
+
+def option_is_some_and(m, ref, args, t, sp):
+    v = args[0]
+    if isinstance(v, VStruct) and v.path == OPTION:
+        if v.variant == 0:
+            return False
+        return m.call_closure(args[1], [v.fields[0]], sp)
+    raise Unsupported("is_some_and of unmodelled option")
+
+
+def option_or(m, ref, args, t, sp):
+    v = args[0]
+    if isinstance(v, VStruct) and v.path == OPTION:
+        return v if v.variant == 1 else args[1]
+    raise Unsupported("or of unmodelled option")
+
+
+def option_as_ref(m, ref, args, t, sp):
+    r = args[0]
+    v = load(m, r)
+    if isinstance(v, VStruct) and v.path == OPTION and isinstance(r, VRef):
+        return some(VRef(r.cell, r.path + (0,), r.mut)) if v.variant == 1 else none()
+    raise Unsupported("as_ref of unmodelled option")
+
+
+def option_ok_or_else(m, ref, args, t, sp):
+    v = args[0]
+    if isinstance(v, VStruct) and v.path == OPTION:
+        return ok(v.fields[0]) if v.variant == 1 else err(m.call_closure(args[1], [], sp))
+    raise Unsupported("ok_or_else of unmodelled option")
+
+
+def result_unwrap_or(m, ref, args, t, sp):
+    v = args[0]
+    if isinstance(v, VStruct) and v.path == RESULT:
+        return v.fields[0] if v.variant == 0 else args[1]
+    raise Unsupported("unwrap_or of unmodelled result")
+
+
+def result_map_or(m, ref, args, t, sp):
+    v = args[0]
+    if isinstance(v, VStruct) and v.path == RESULT:
+        return m.call_closure(args[2], [v.fields[0]], sp) if v.variant == 0 else args[1]
+    raise Unsupported("map_or of unmodelled result")
+
+
+def result_and_then(m, ref, args, t, sp):
+    v = args[0]
+    if isinstance(v, VStruct) and v.path == RESULT:
+        return m.call_closure(args[1], [v.fields[0]], sp) if v.variant == 0 else v
+    raise Unsupported("and_then of unmodelled result")
+
+
+def result_err(m, ref, args, t, sp):
+    v = args[0]
+    if isinstance(v, VStruct) and v.path == RESULT:
+        return some(v.fields[0]) if v.variant == 1 else none()
+    raise Unsupported("err() of unmodelled result")
+
+
+for _k, _h in (("core::option::Option::<&T>::copied", option_copied), ("core::option::Option::<&T>::cloned", option_copied),
+               ("core::option::Option::<&mut T>::copied", option_copied),
+               ("core::option::Option::<T>::map_or_else", option_map_or_else), ("core::result::Result::<T, E>::map_or_else", option_map_or_else),
+               ("core::option::Option::<T>::is_some_and", option_is_some_and), ("core::option::Option::<T>::or", option_or),
+               ("core::option::Option::<T>::ok_or_else", option_ok_or_else), ("core::result::Result::<T, E>::unwrap_or", result_unwrap_or),
+               ("core::result::Result::<T, E>::map_or", result_map_or), ("core::result::Result::<T, E>::and_then", result_and_then),
+               ("core::result::Result::<T, E>::err", result_err), ("core::option::Option::<T>::unwrap_or_default", None)):
+    if _h:
+        BY_NAME.setdefault(_k, _h)
+
+
+_PURE_KINDS = ("slice_iter", "array_iter", "zip", "enumerate", "copied", "take", "skip", "chain", "rev", "chunks_exact", "windows", "step_by")
+
+
+def _pure_iter(it):
+    """iterator models whose items can be produced eagerly without observable effects"""
+    if isinstance(it, VModel):
+        if it.kind == "user_iter":
+            v = it.st["cell"].v
+            return isinstance(v, VStruct) and v.path.startswith("core::ops::range::Range")
+        if it.kind not in _PURE_KINDS:
+            return False
+        return all(_pure_iter(x) for x in it.st.values() if isinstance(x, VModel))
+    return False
+
+
+_model_next_3 = model_next
+
+
+def model_next(m, it, sp, item_ty=None):
+    if it.kind == "rev" and it.st["inner"].kind != "slice_iter":
+        st = it.st
+        if "buf" not in st:
+            inner = st["inner"]
+            if not _pure_iter(inner):
+                raise Unsupported("rev of " + inner.kind)
+            buf = []
+            while True:
+                x = model_next(m, inner, sp, item_ty)
+                if x is None:
+                    break
+                buf.append(x)
+                if len(buf) > 100000:
+                    raise Unsupported("rev of an unbounded iterator")
+            st["buf"] = buf
+        return st["buf"].pop() if st["buf"] else None
+    return _model_next_3(m, it, sp, item_ty)
+
+
+def _yields_refs(m, it):
+    """True/False when the items of iterator model `it` are references / values, None when unknown"""
+    if not isinstance(it, VModel):
+        return None
+    k = it.kind
+    if k in ("slice_iter", "windows", "chunks_exact"):
+        return True
+    if k in ("copied", "array_iter", "enumerate", "zip", "user_iter"):
+        return False
+    if k in ("take", "skip", "rev", "filter", "step_by", "chain"):
+        return _yields_refs(m, it.st.get("inner") or it.st.get("a"))
+    if k == "map":
+        clo = it.st["f"]
+        v = load(m, clo) if isinstance(clo, VRef) else clo
+        f = m.db.fns.get(v.path) if isinstance(v, VStruct) else None
+        if f:
+            return f["locals"][0]["ty"].get("k") == "ref"
+        return None
+    if k == "opaque_iter":
+        f = m.db.fns.get(m.stack[-1]) if m.stack else None
+        tr = (f or {}).get("impl_trait_ref") or ""
+        if tr:
+            import re as _re
+            return bool(_re.search(r"(FromIterator|Extend|FromParallelIterator)<&", tr))
+    return None
+
+
+def iter_collect(m, ref, args, t, sp):
+    """Iterator::collect::<B>() for a crate-local B: runs B's own FromIterator impl"""
+    targs = [a for a in (ref.get("resolved_targs") or ref.get("targs") or []) if a.get("k") == "adt"]
+    it = iter_of(m, args[0], sp)
+    FI = "core::iter::traits::collect::FromIterator"
+    for a in reversed(targs):
+        cands = m.db.impl_of.get((FI, a.get("path")), [])
+        if not cands:
+            continue
+        if len(cands) > 1:
+            yr = _yields_refs(m, it)
+            if yr is None:
+                raise Unsupported("collect: cannot tell which FromIterator impl of %s applies" % a["path"])
+            cands = [i for i in cands if ((i.get("trait_args") or [{}])[0].get("k") == "ref") == yr]
+        if len(cands) == 1:
+            p = [x["path"] for x in cands[0]["items"] if x["name"] == "from_iter"]
+            if p and p[0] in m.db.fns:
+                return m.call_local(m.db.fns[p[0]], [it], sp)
+    return m.unknown_call(ref["fn"], args, t, sp, ref)
+
+
+BY_TRAIT[("core::iter::traits::iterator::Iterator", "collect")] = iter_collect
+
+
+# enum constructors used as function values (`.map(Some)`, `.map_err(Err)` ...)
+BY_NAME["core::option::Option::Some"] = lambda m, ref, args, t, sp: some(args[0])
+BY_NAME["core::result::Result::Ok"] = lambda m, ref, args, t, sp: ok(args[0])
+BY_NAME["core::result::Result::Err"] = lambda m, ref, args, t, sp: err(args[0])
